@@ -3,6 +3,7 @@
 (*                                                                                      *)
 (* (M) abstract problem.  A value is an atom or a tuple of atoms,                       *)
 (*        [t |-> 0, e |-> <<i>>]   atom i          [t |-> 1, e |-> <<i1,..,in>>]  tuple *)
+(*     (and [t |-> 2, e |-> members] a frozenset of atoms, used as a foreign key only)  *)
 (*     so that a tuple can be BOTH an element of a domain and a field-wise key.  A      *)
 (*     table T = [doms |-> sequence of duplicate-free sequences of values, L, W]; its   *)
 (*     cell at positions p is the mixed-radix code of p (injective, = numpy C order).   *)
@@ -44,6 +45,9 @@ StateView == <<tid, view, Len(hist)>>
 \* ---------------------------------------------------------------- values
 Atom(i) == [t |-> 0, e |-> <<i>>]
 Tup(es) == [t |-> 1, e |-> es]
+\* a frozenset of atoms (e = its members in increasing order): a hashable that is opaque to indexing, like an atom.
+\* It only occurs as a FOREIGN key whose members are labels of the domain - it is never unpacked into a list of keys.
+SetV(es) == [t |-> 2, e |-> es]
 NoVal   == [t |-> 0, e |-> <<>>]
 FA      == 99                       \* an atom that is in no domain
 MAXD    == 4                        \* largest domain size
@@ -67,7 +71,7 @@ EllS       == [k |-> "ell",    v |-> NoVal, vs |-> <<>>, cs |-> <<>>]
 PSliceS    == [k |-> "pslice", v |-> NoVal, vs |-> <<>>, cs |-> <<>>]
 TupS(cs)   == [k |-> "tup",    v |-> NoVal, vs |-> <<>>, cs |-> cs]
 \* the selector that python writes for a value: the atom itself, or the tuple of its atoms
-SelOfVal(v) == IF v.t = 0 THEN KeyS(v) ELSE TupS([i \in 1..Len(v.e) |-> KeyC(Atom(v.e[i]))])
+SelOfVal(v) == IF v.t # 1 THEN KeyS(v) ELSE TupS([i \in 1..Len(v.e) |-> KeyC(Atom(v.e[i]))])
 \* a selector that is also a value: an atom, or a python tuple all of whose components are atoms
 HasVal(sel) == \/ sel.k = "key"
                \/ sel.k = "tup" /\ \A i \in 1..Len(sel.cs) : sel.cs[i].k = "key" /\ sel.cs[i].v.t = 0
@@ -181,7 +185,8 @@ Foreign(D, sel) ==
         \/ \E j \in 1..Len(cn) : j <= m /\
               \/ cn[j].k = "key" /\ cn[j].v \notin Range(D.doms[j])
               \/ cn[j].k = "list" /\ \E x \in Range(cn[j].vs) : x \notin Range(D.doms[j])
-\* per-component class, for signatures: K key in domain, F foreign atom, T foreign tuple, W whole domain,
+\* per-component class, for signatures: K key in domain, F foreign atom, S foreign frozenset of domain atoms,
+\* T foreign tuple, W whole domain,
 \* ":" slice, "..." ellipsis, P partial slice, L list, Lf list with a foreign key, L0 empty list, Ld repeated key
 CompClass(D, cs, i) ==
   LET m == Len(D.doms)
@@ -196,6 +201,7 @@ CompClass(D, cs, i) ==
                           ELSE IF j >= 1 /\ j <= m /\ \A x \in Range(c.vs) : x \in Range(D.doms[j]) THEN "L" ELSE "Lf"
        [] OTHER -> IF j >= 1 /\ j <= m /\ c.v \in Range(D.doms[j]) THEN "K"
                    ELSE IF c.v.t = 0 THEN "F"
+                   ELSE IF c.v.t = 2 THEN "S"
                    ELSE IF j >= 1 /\ j <= m /\ AllAtoms(D.doms[j]) /\ c.v = WholeTup(D.doms[j]) THEN "W" ELSE "T"
 Classes(D, sel) == LET cs == CompsOf(sel) IN [i \in 1..Len(cs) |-> CompClass(D, cs, i)]
 
@@ -285,8 +291,15 @@ GoodLists(d, W) ==
                          p \in {q \in (1..Len(d)) \X (1..Len(d)) \X (1..Len(d)) : q[1] # q[2] /\ q[1] # q[3] /\ q[2] # q[3]}}
         ELSE {})
 Good(d, W) == {KeyC(d[i]) : i \in 1..Len(d)} \cup {SliceC} \cup GoodLists(d, W)
+\* frozensets of atoms of the domain (none of them is a domain element: domains hold atoms and tuples only)
+SetsOf(d, W) ==
+  LET da == {d[i].e[1] : i \in {x \in 1..Len(d) : d[x].t = 0}} IN
+  IF da = {} THEN {}
+  ELSE LET lo == CHOOSE a \in da : \A b \in da : a <= b IN
+       IF W <= 1 THEN {SetV(<<lo>>)} \cup {SetV(<<lo, b>>) : b \in {x \in da : x > lo /\ \A y \in da : y > lo => x <= y}}
+       ELSE {SetV(<<a>>) : a \in da} \cup {SetV(<<p[1], p[2]>>) : p \in {q \in da \X da : q[1] < q[2]}}
 Odd(d, W, oa) ==
-  {KeyC(Atom(FA)), ListC(<<>>)} \cup (IF Len(d) >= 1 THEN {ListC(<<d[1], Atom(FA)>>)} ELSE {ListC(<<Atom(FA)>>)})
+  {KeyC(Atom(FA)), ListC(<<>>)} \cup {KeyC(x) : x \in SetsOf(d, 1)} \cup (IF Len(d) >= 1 THEN {ListC(<<d[1], Atom(FA)>>)} ELSE {ListC(<<Atom(FA)>>)})
   \cup (IF AllAtoms(d) /\ WholeTup(d) \notin Range(d) THEN {KeyC(WholeTup(d))} ELSE {})
   \cup (IF AllAtoms(d) /\ Len(d) >= 2 /\ Tup(<<d[2].e[1], d[1].e[1]>>) \notin Range(d)
         THEN {KeyC(Tup(<<d[2].e[1], d[1].e[1]>>))} ELSE {})
@@ -315,7 +328,7 @@ Menu(T, v) ==
                \cup {Append(cs, EllC) \o <<cs[m]>> : cs \in fullK} \cup {<<EllC, EllC>>, <<EllC, KeyC(Atom(FA))>>}
       twoL  == IF m >= 2 /\ Len(ds[2]) >= 1 THEN {<<ListC(Rev(ds[1])), ListC(<<ds[2][1]>>)>>} ELSE {}
   IN IF m = 0 THEN {}
-     ELSE {KeyS(a) : a \in oa \cup {Atom(FA)}}
+     ELSE {KeyS(a) : a \in oa \cup {Atom(FA)} \cup SetsOf(ds[1], W)}
           \cup {SliceS, EllS, PSliceS, TupS(<<>>)}
           \cup {ListS(c.vs) : c \in {x \in G[1] \cup O[1] : x.k = "list"}}
           \cup {SelOfVal(x) : x \in tv}
